@@ -325,6 +325,11 @@ def run(run):
         C05.ob_call_parameters(run, mir, rp, fam)
     except Unsupported as e:
         run.ob("call-parameters-encoding", "E2", "kernel is encodable").inconclusive(f"unsupported construct: {e}")
+    try:
+        # ... also when the callee is a function-typed value
+        C05.ob_fn_value_arguments(run, mir, rp, fam)
+    except Unsupported as e:
+        run.ob("function-value-arguments-encoding", "E2", "kernel is encodable").inconclusive(f"unsupported construct: {e}")
     if all(o.status == "discharged" for o in run.obs):
         e2.validate_family(run, fam, "null-safety")
     rp.close()
